@@ -666,7 +666,20 @@ func (RobustnessOracle) Finish(r *Run) {
 			return
 		}
 	}
-	r.Fail("C10", "healthy_workload_not_scheduled", "after %d cycles the healthy witness workload ww (own queue qw, own node nw) was never bound", r.cycle)
+	why := ""
+	if p := r.API.Pod(NS, "ww-p0"); p != nil {
+		for _, c := range p.Status.Conditions {
+			why += fmt.Sprintf(" [pod condition %s=%s %s: %s]", c.Type, c.Status, c.Reason, c.Message)
+		}
+	}
+	for _, g := range r.API.PodGroups() {
+		if g.Name == "ww" {
+			for _, c := range g.Status.SchedulingConditions {
+				why += fmt.Sprintf(" [pod group condition %s: %s]", c.Type, c.Message)
+			}
+		}
+	}
+	r.Fail("C10", "healthy_workload_not_scheduled", "after %d cycles the healthy witness workload ww (own queue qw, own node nw) was never bound;%s", r.cycle, why)
 }
 
 // ---------------------------------------------------------------------------------- C15
